@@ -232,6 +232,7 @@ type raftMonitor struct {
 	// shadow state machines: every partition group's log, as first applied by anybody, is
 	// replayed into a stand-alone partition of the same shape; a snapshot labelled with
 	// index L - taken locally or received - must restore to what the shadow held after L
+	deletedOn map[string]bool // node/group: the node deleted the group's log (its dataset was deleted)
 	shadow  map[uuid.UUID]*shadowPart
 	shapeOf func(group uuid.UUID) (dim, space int, ok bool)
 }
@@ -246,7 +247,7 @@ type shadowPart struct {
 
 func newRaftMonitor(s *Sim, viol func(sig, format string, a ...interface{})) *raftMonitor {
 	m := &raftMonitor{s: s, applied: map[string]uint64{}, appliedBy: map[string]string{}, lastIdx: map[string]uint64{}, leaders: map[string]uint64{},
-		durable: map[string]*durableSample{}, viol: viol, injected: map[int]bool{}, epoch: map[string]int{}, shadow: map[uuid.UUID]*shadowPart{}}
+		durable: map[string]*durableSample{}, viol: viol, injected: map[int]bool{}, epoch: map[string]int{}, shadow: map[uuid.UUID]*shadowPart{}, deletedOn: map[string]bool{}}
 	s.onApply = m.onApply
 	s.onApplySync = m.onApplySync
 	s.onRaftMsg = m.onRaftMsg
@@ -274,7 +275,14 @@ func gname(s *Sim, g uuid.UUID) string {
 
 func (m *raftMonitor) onApply(a applyRec) {
 	nk := fmt.Sprintf("%d/%d/%s", a.node, a.inc, a.group)
-	if a.typ == -1 { // snapshot installed: the next entry follows the snapshot
+	if a.typ == -1 { // snapshot installed / group (re)started: the next entry follows
+		if a.index == 0 && m.deletedOn[fmt.Sprintf("%d/%s", a.node, a.group)] {
+			// the node starts, from an empty log, the group of a dataset whose log it had deleted
+			// (it replays "create" before it reaches "delete"): whoever still runs the old
+			// instance of the group will find this replica's log "lost"
+			m.s.out.Stat("deleted_groups_loaded_again_during_replay", 1)
+			fmt.Fprintf(realStderr, "VERIF-MARK group-of-a-deleted-dataset-loaded-again n%d %s\n", m.s.nodeIdx(a.node), shortG(a.group))
+		}
 		m.lastIdx[nk] = a.index
 		return
 	}
@@ -524,6 +532,9 @@ func (m *raftMonitor) onIO(n *simNode, group uuid.UUID, op string, before bool) 
 			// the product deletes / recreates the group's store: expectations start over
 			// (queued behind the apply records of the old instance that are still in the mailbox)
 			dk, lk := fmt.Sprintf("%d/%s", n.id, group), fmt.Sprintf("%d/%d/%s", n.id, n.inc, group)
+			if d := m.durable[dk]; d != nil && d.last > 0 && !uuid.Equal(group, uuid.Nil) {
+				m.deletedOn[dk] = true // a log that held entries is deleted: the group is gone for good on this node
+			}
 			m.epoch[dk]++ // samples requested before this instant must not read the new store
 			m.s.post(func() {
 				delete(m.durable, dk)
